@@ -864,3 +864,67 @@ def long_scan(nchildren=2600, nbip85=1100, seed_hex="5e" * 64):
     if [getattr(fb, m)(*a) for m, a in early] != first:
         raise Mismatch("purity", "BIP85 answers differ from a fresh wallet's")
     return k + n85
+
+
+def generator_jumps(seed=0, seed_hex="5e" * 64):
+    """Address generators driven with sent skips: short ones, random ones and jumps that land just below, on and above
+    2^31 (where a private node's children become hardened ones).  Every yielded (path label, address) pair is compared
+    with what a FRESH wallet says about that child derived step by step, and the label must read back (the library's
+    own path reader) as the parent's path followed by the index that was reached.  Watch-only generators are driven
+    below 2^31 only.  Raises Mismatch; returns the number of pairs compared."""
+    import random
+    from btc_hd_wallet import PaperWallet
+    from btc_hd_wallet.wallet_utils import Bip32Path
+    rng = random.Random(seed)
+    Hd = 2 ** 31
+    kinds = ("p2wpkh", "p2pkh", "p2sh_p2wpkh", "p2wsh", "p2sh_p2wsh")
+    n = 0
+    for test in (False, True):
+        coin = 1 if test else 0
+        parents = ["m", "m/0", "m/84'/%d'/1'/0" % coin, "m/44'/%d'/0'" % coin, "m/49'/%d'/2'/1" % coin]
+        for j, ppath in enumerate(parents):
+            plans = [[0, 5, Hd - 8, 0, 0, 0, 0, 0, 2], [0, Hd, 0, 3, Hd - 6, 0], [0] + [rng.choice([0, 1, 2, 7, rng.randrange(1, 2 ** 20)]) for _ in range(5)]]
+            for pi, plan in enumerate(plans):
+                w = PaperWallet.from_bip39_seed_hex(seed_hex, testnet=test)
+                fresh = PaperWallet.from_bip39_seed_hex(seed_hex, testnet=test)
+                kind = kinds[(j + pi + coin) % 5]
+                node, fparent = w.by_path(ppath), fresh.by_path(ppath)
+                plist = Bip32Path.parse(ppath).to_list()
+                gen = w.address_generator(node, getattr(w, kind + "_address")) if (j + pi) % 3 else \
+                    (w.address_generator(node) if kind == "p2wpkh" else w.address_generator(node=node, addr_fnc=getattr(w, kind + "_address")))
+                at = None
+                for skip in plan:
+                    at = 0 if at is None else at + (skip or 1)
+                    try:
+                        item = next(gen) if (skip == 0 or at == 0) else gen.send(skip)
+                    except Exception as ex:
+                        if raised_in_library(ex):
+                            raise Mismatch("purity", "address generator on %s (%s) raised %r on the way to index %d" % (ppath, kind, ex, at))
+                        raise
+                    fchild = fparent.ckd(at)
+                    ref = (str(fchild), getattr(fresh, kind + "_address")(fchild))
+                    n += 1
+                    what = "address generator on %s %s (%s) at index %d yielded %r" % ("test" if test else "main", ppath, kind, at, tuple(item))
+                    if tuple(item) != ref:
+                        raise Mismatch("purity", "%s, a fresh wallet says %r" % (what, ref))
+                    try:
+                        back = Bip32Path.parse(item[0]).to_list()
+                    except Exception as ex:
+                        raise Mismatch("purity", "%s: the label does not read back as a path (%r)" % (what, ex))
+                    if back != plist + [at]:
+                        raise Mismatch("purity", "%s: the label reads back as %r, the child reached is %r" % (what, back, plist + [at]))
+        # watch-only: the account's extended public key, imported; skips stay below 2^31
+        w = PaperWallet.from_bip39_seed_hex(seed_hex, testnet=test)
+        acct = w.by_path("m/84'/%d'/0'" % coin)
+        xpub = w.node_extended_public_key(acct)
+        wo, wo2 = PaperWallet.from_extended_key(xpub), PaperWallet.from_extended_key(xpub)
+        chain, chain2 = wo.master.ckd(0), wo2.master.ckd(0)
+        gen, at = wo.address_generator(chain), None
+        for skip in (0, 4, 2 ** 20, 0, Hd - 2 ** 20 - 8, 0):
+            at = 0 if at is None else at + (skip or 1)
+            item = next(gen) if (skip == 0 or at == 0) else gen.send(skip)
+            fchild = chain2.ckd(at)
+            n += 1
+            if tuple(item) != (str(fchild), wo2.p2wpkh_address(fchild)) or item[1] != w.p2wpkh_address(w.by_path("m/84'/%d'/0'/0" % coin).ckd(at)):
+                raise Mismatch("purity", "watch-only address generator at index %d yielded %r, a fresh import says %r" % (at, tuple(item), (str(fchild), wo2.p2wpkh_address(fchild))))
+    return n
